@@ -312,7 +312,10 @@ def _checkout(  # noqa: C901
 
     progress_callback.set_size(sum(diff.stats.values()))
     link = Link(links, callback=progress_callback)
-    for change in diff.deleted:
+    # NOTE: the root goes last. Removing it removes everything below it, and
+    # `in_cache` of a directory only says that its .dir object is cached, so
+    # each entry has to pass its own check first.
+    for change in sorted(diff.deleted, key=lambda change: change.old.key == ROOT):
         entry_path = fs.join(path, *change.old.key) if change.old.key != ROOT else path
         _remove(entry_path, fs, change.old.in_cache, force=force, prompt=prompt)
 
